@@ -1,5 +1,285 @@
-//! feed / session / race / scan trace drivers
-pub fn cmd_feed(_args: &[String]) { unimplemented!() }
+//! feed / session / race / scan trace drivers (implementation -> specification)
+use crate::obs::*;
+use crate::vecs::*;
+use rand::rngs::StdRng;
+use rand::{Rng, SeedableRng};
+use std::io::{BufRead, BufWriter, Write};
+
+fn arg(args: &[String], name: &str) -> Option<String> {
+    args.iter().position(|a| a == name).and_then(|i| args.get(i + 1).cloned())
+}
+
+pub fn entry_of(kind: u8) -> u8 {
+    match kind {
+        K_REQ => E_CFG_REQ,
+        K_RESP => E_CFG_RESP,
+        K_HDRS => E_HEADERS,
+        _ => E_CHUNK,
+    }
+}
+
+fn span(s: &Option<Sl>, buf: &[u8]) -> String {
+    match s {
+        None => "[-1,-1]".into(),
+        Some(sl) => match sl.within(buf) {
+            Some((a, b)) => format!("[{},{}]", a, b),
+            None => {
+                if sl.len == 0 {
+                    "[0,0]".into()
+                } else {
+                    format!("[-2,{}]", sl.len as i64 - 2)
+                }
+            }
+        },
+    }
+}
+
+pub fn obs_json(o: &Obs, buf: &[u8], kind: u8) -> String {
+    let hs: Vec<String> = if o.st == ST_C {
+        o.exposed
+            .iter()
+            .map(|h| {
+                let n = span(&Some(h.0), buf);
+                let v = span(&Some(h.1), buf);
+                format!("[{},{}]", &n[1..n.len() - 1], &v[1..v.len() - 1])
+            })
+            .collect()
+    } else {
+        vec![]
+    };
+    let digits: Vec<String> = if kind == K_CHUNK && o.st == ST_C {
+        // the value as hex digits, most significant first, as many as the input had
+        let n = buf.iter().take_while(|b| b.is_ascii_hexdigit()).count();
+        let hex = format!("{:0width$x}", o.size, width = n);
+        hex.chars().map(|c| c.to_digit(16).unwrap().to_string()).collect()
+    } else {
+        vec![]
+    };
+    format!(
+        "\"st\":{},\"n\":{},\"err\":{},\"m\":{},\"p\":{},\"v\":{},\"c\":{},\"r\":{},\"h\":[{}],\"digits\":[{}],\"panicked\":{}",
+        o.st,
+        o.n,
+        o.err,
+        span(&o.method, buf),
+        span(&o.path, buf),
+        o.version.map(|x| x as i64).unwrap_or(-1),
+        o.code.map(|x| x as i64).unwrap_or(-1),
+        span(&o.reason, buf),
+        hs.join(","),
+        digits.join(","),
+        o.panicked
+    )
+}
+
+/// random grammar-derived message (request or response) with optional mutation
+pub fn random_message(rng: &mut StdRng, kind: u8, maxhdr: usize) -> Vec<u8> {
+    let mut b = Vec::new();
+    let tok = |rng: &mut StdRng, n: usize| -> Vec<u8> {
+        const T: &[u8] = b"abcdefghijklmnopqrstuvwxyzABCDEFGHIJKLMNOPQRSTUVWXYZ0123456789-_.!#$%&'*+^`|~";
+        (0..n).map(|_| T[rng.gen_range(0..T.len())]).collect()
+    };
+    let eol = |rng: &mut StdRng, b: &mut Vec<u8>| b.extend_from_slice(if rng.gen_bool(0.7) { b"\r\n" } else { b"\n" });
+    if rng.gen_bool(0.1) {
+        eol(rng, &mut b);
+    }
+    match kind {
+        K_REQ => {
+            let m: &[&[u8]] = &[b"GET", b"POST", b"PUT", b"OPTIONS", b"X-y", b"GE", b"POSTX"];
+            b.extend_from_slice(m[rng.gen_range(0..m.len())]);
+            b.push(b' ');
+            if rng.gen_bool(0.1) {
+                b.push(b' ');
+            }
+            b.push(b'/');
+            let n = rng.gen_range(0..60);
+            for _ in 0..n {
+                b.push(rng.gen_range(0x21u8..0x7f));
+            }
+            if rng.gen_bool(0.2) {
+                b.extend_from_slice("é✓𐍈".as_bytes());
+            }
+            b.extend_from_slice(b" HTTP/1.");
+            b.push(if rng.gen_bool(0.5) { b'0' } else { b'1' });
+            eol(rng, &mut b);
+        }
+        K_RESP => {
+            b.extend_from_slice(b"HTTP/1.");
+            b.push(if rng.gen_bool(0.5) { b'0' } else { b'1' });
+            b.push(b' ');
+            if rng.gen_bool(0.1) {
+                b.push(b' ');
+            }
+            for _ in 0..3 {
+                b.push(b'0' + rng.gen_range(0..10));
+            }
+            if rng.gen_bool(0.8) {
+                b.push(b' ');
+                let n = rng.gen_range(0..20);
+                for _ in 0..n {
+                    b.push(if rng.gen_bool(0.03) { 0xe9 } else { rng.gen_range(0x20u8..0x7f) });
+                }
+            }
+            eol(rng, &mut b);
+        }
+        K_CHUNK => {
+            let n = rng.gen_range(0..18);
+            for _ in 0..n {
+                b.push(b"0123456789abcdefABCDEF"[rng.gen_range(0..22)]);
+            }
+            if rng.gen_bool(0.3) {
+                b.push(b' ');
+            }
+            if rng.gen_bool(0.4) {
+                b.push(b';');
+                for _ in 0..rng.gen_range(0..30) {
+                    b.push(rng.gen_range(0x20u8..0x7f));
+                }
+            }
+            b.extend_from_slice(b"\r\n");
+            if rng.gen_bool(0.2) && !b.is_empty() {
+                let i = rng.gen_range(0..b.len());
+                b[i] = [0u8, 9, 10, 13, 32, 59, 103, 255][rng.gen_range(0..8)];
+            }
+            return b;
+        }
+        _ => {}
+    }
+    let nh = rng.gen_range(0..maxhdr);
+    for _ in 0..nh {
+        if rng.gen_bool(0.05) {
+            b.push(b' ');
+        }
+        let nlen = rng.gen_range(1..24);
+        b.extend(tok(rng, nlen));
+        if rng.gen_bool(0.05) {
+            b.push(b' ');
+        }
+        b.push(b':');
+        for _ in 0..rng.gen_range(0..3) {
+            b.push(if rng.gen_bool(0.8) { b' ' } else { b'\t' });
+        }
+        let n = rng.gen_range(0..50);
+        for _ in 0..n {
+            let c = if rng.gen_bool(0.05) { rng.gen_range(0x80u8..=0xff) } else { rng.gen_range(0x20u8..0x7f) };
+            b.push(c);
+        }
+        if rng.gen_bool(0.1) {
+            b.push(b' ');
+        }
+        eol(rng, &mut b);
+        if rng.gen_bool(0.1) {
+            b.extend_from_slice(b"  folded");
+            eol(rng, &mut b);
+        }
+    }
+    eol(rng, &mut b);
+    if rng.gen_bool(0.3) {
+        b.extend_from_slice(b"body\r\n\r\n");
+    }
+    if rng.gen_bool(0.3) && !b.is_empty() {
+        let i = rng.gen_range(0..b.len());
+        b[i] = [0u8, 1, 9, 10, 13, 32, 58, 127, 128, 255][rng.gen_range(0..10)];
+    }
+    b
+}
+
+pub fn read_harvest(path: &str, max_len: usize) -> Vec<Vec<u8>> {
+    let mut out = Vec::new();
+    if let Ok(f) = std::fs::File::open(path) {
+        for l in std::io::BufReader::new(f).lines().map_while(Result::ok) {
+            let l = l.trim();
+            if l.len() % 2 != 0 {
+                continue;
+            }
+            let b: Option<Vec<u8>> = (0..l.len() / 2).map(|i| u8::from_str_radix(&l[2 * i..2 * i + 2], 16).ok()).collect();
+            if let Some(b) = b {
+                if b.len() <= max_len {
+                    out.push(b);
+                }
+            }
+        }
+    }
+    out.sort();
+    out.dedup();
+    out
+}
+
+// ---------------------------------------------------------------- feed
+pub fn cmd_feed(args: &[String]) {
+    let out = arg(args, "--out").unwrap();
+    let seed: u64 = arg(args, "--seed").and_then(|s| s.parse().ok()).unwrap_or(0);
+    let events: usize = arg(args, "--events").and_then(|s| s.parse().ok()).unwrap_or(100000);
+    let shards: usize = arg(args, "--shards").and_then(|s| s.parse().ok()).unwrap_or(1);
+    let harvest = arg(args, "--harvest");
+    let kinds: Vec<u8> = arg(args, "--kinds").unwrap_or("0,1,2,3".into()).split(',').map(|x| x.parse().unwrap()).collect();
+    let mut rng = StdRng::seed_from_u64(seed ^ 0xfeed);
+    let mut inputs: Vec<(u8, u8, usize, Vec<u8>)> = Vec::new();
+    let mut budget = 0usize;
+    if let Some(h) = harvest {
+        for b in read_harvest(&h, 400) {
+            for &k in &kinds {
+                // a harvested buffer under the kind it most plausibly belongs to, and the others briefly
+                let plausible = match k {
+                    K_REQ => b.first().map(|c| c.is_ascii_uppercase()).unwrap_or(false) && !b.starts_with(b"HTTP/"),
+                    K_RESP => b.starts_with(b"HTTP/"),
+                    K_HDRS => b.contains(&b':') && !b.starts_with(b"HTTP/") && !b.starts_with(b"GET"),
+                    _ => b.len() < 24,
+                };
+                if !plausible {
+                    continue;
+                }
+                let cfgs: &[u8] = if k == K_REQ { &[0, 49] } else if k == K_RESP { &[0, 94] } else { &[0] };
+                for &c in cfgs {
+                    budget += b.len();
+                    inputs.push((k, c, 16, b.clone()));
+                }
+            }
+            if budget > events / 2 {
+                break;
+            }
+        }
+    }
+    while budget < events {
+        let kind = kinds[rng.gen_range(0..kinds.len())];
+        let m = if kind == K_HDRS {
+            let full = random_message(&mut rng, K_REQ, 6);
+            let p = full.iter().position(|c| *c == b'\n').map(|p| p + 1).unwrap_or(0);
+            full[p..].to_vec()
+        } else {
+            random_message(&mut rng, kind, 6)
+        };
+        let cfg = if rng.gen_bool(0.4) { 0 } else { rng.gen_range(0..128u8) & relevant_mask(kind) };
+        let cap = if rng.gen_bool(0.7) { 16 } else { rng.gen_range(0..4) };
+        budget += m.len();
+        inputs.push((kind, cfg, cap, m));
+    }
+    let arena = Arena::new(1 << 20);
+    let mut ws: Vec<BufWriter<std::fs::File>> = (0..shards).map(|i| BufWriter::new(std::fs::File::create(format!("{}.{}", out, i)).unwrap())).collect();
+    let mut total = 0u64;
+    for (ci, (kind, cfg, cap, data)) in inputs.iter().enumerate() {
+        let w = &mut ws[ci % shards];
+        writeln!(w, "{{\"ev\":\"reset\",\"kind\":{},\"cfg\":{},\"cap\":{},\"id\":{}}}", kind, cfg, if *cap >= 16 { INF as usize } else { *cap }, ci).unwrap();
+        total += 1;
+        let mut after_final = 0;
+        for k in 1..=data.len() {
+            let buf = arena.place(&data[..k], Place::End);
+            let o = run(entry_of(*kind), *cfg, buf, if *cap >= 16 { 24 } else { *cap });
+            writeln!(w, "{{\"ev\":\"feed\",\"b\":{},{}}}", data[k - 1], obs_json(&o, buf, *kind)).unwrap();
+            total += 1;
+            if o.st != ST_P {
+                after_final += 1;
+                if after_final > 6 {
+                    break;
+                }
+            }
+        }
+    }
+    for w in ws.iter_mut() {
+        writeln!(w, "{{\"ev\":\"end\"}}").unwrap();
+    }
+    println!("{{\"inputs\":{},\"events\":{}}}", inputs.len(), total);
+}
+
 pub fn cmd_session(_args: &[String]) { unimplemented!() }
 pub fn cmd_race(_args: &[String]) { unimplemented!() }
 pub fn cmd_scan(_args: &[String]) { unimplemented!() }
